@@ -140,6 +140,9 @@ def _exec_with_local_types(run, body):
             t = run.local_types[target.id]
             if isinstance(v, symex.PyEmptyDict) and isinstance(t, TDict):
                 v = SDict(t, t.empty())
+                if t.v is sym.TNum:
+                    from . import lemmas
+                    run.assume(*lemmas.msum_empty(t))
             elif isinstance(v, symex.PyList) and isinstance(t, TList):
                 v = run.make_list(v.items, t.e)
         orig_assign(target, v)
@@ -220,6 +223,21 @@ def normal_exit(run, fs, res, rep):
             selfv.setfield(g, allf[g].wrap(z3.simplify(_term(term))))
     if fs.lemmas:
         run.assume(*fs.lemmas(cexit))
+    step_facts = {}
+    for entry in fs.exit_cuts:
+        cname, f = entry[0], entry[1]
+        uses = entry[2] if len(entry) > 2 else None
+        g = _conj(run.clause('step:' + cname, f, cexit))
+        if uses is None:
+            run.oblige(f"{key}/step/{cname}", g, kind='step', clause='step:' + cname, function=key)
+        else:
+            # proved from the named earlier steps alone (each of them was proved on this path): a small query
+            saved = run.pc
+            run.pc = [step_facts[u] for u in uses]
+            run.oblige(f"{key}/step/{cname}", g, kind='step', clause='step:' + cname, function=key)
+            run.pc = saved
+        step_facts[cname] = g
+        run.assume(g)
     if fs.returns_self:
         run.oblige(f"{key}/post/returns_self", res is selfv, kind='post', clause='returns_self', function=key)
     elif fs.ret is not None and isinstance(res, SV):
